@@ -214,6 +214,8 @@ struct SessionState {
     deferred_read: DeferredRead,
     last_recorded_time: Option<tokio::time::Instant>,
     last_broadcast_type: Option<BroadcastConfirmMode>,
+    /// true once the pending broadcast has been indicated in a response
+    broadcast_reported: bool,
 }
 
 impl SessionState {
@@ -228,6 +230,16 @@ impl SessionState {
             deferred_read: DeferredRead::new(max_read_headers),
             last_recorded_time: None,
             last_broadcast_type: None,
+            broadcast_reported: false,
+        }
+    }
+
+    /// A confirmation acknowledges a broadcast only if a response has indicated it.
+    /// A broadcast received after the response being confirmed was built must still be reported.
+    fn on_broadcast_confirmed(&mut self) {
+        if self.broadcast_reported {
+            self.last_broadcast_type = None;
+            self.broadcast_reported = false;
         }
     }
 
@@ -755,7 +767,7 @@ impl OutstationSession {
         match self.classify(info, request) {
             FragmentType::UnsolicitedConfirm(seq) => {
                 if seq == uns_ecsn {
-                    self.state.last_broadcast_type = None;
+                    self.state.on_broadcast_confirmed();
                     self.info.unsolicited_confirmed(seq);
                     Ok(UnsolicitedWaitResult::Complete(
                         UnsolicitedResult::Confirmed,
@@ -770,7 +782,7 @@ impl OutstationSession {
             }
             FragmentType::SolicitedConfirm(_) => {
                 if let Some(BroadcastConfirmMode::Mandatory) = self.state.last_broadcast_type {
-                    self.state.last_broadcast_type = None
+                    self.state.on_broadcast_confirmed();
                 } else {
                     tracing::warn!("ignoring solicited confirm");
                 }
@@ -1917,6 +1929,8 @@ impl OutstationSession {
 
             if mode != BroadcastConfirmMode::Mandatory {
                 self.state.last_broadcast_type = None;
+            } else {
+                self.state.broadcast_reported = true;
             }
         }
 
@@ -1934,6 +1948,7 @@ impl OutstationSession {
         request: Request<'_>,
     ) {
         self.state.last_broadcast_type = Some(mode);
+        self.state.broadcast_reported = false;
         let action = self
             .process_broadcast_get_action(frame_id, database, request)
             .await;
@@ -2042,7 +2057,7 @@ impl OutstationSession {
                 .await?
             {
                 Confirm::Yes(respond_to) => {
-                    self.state.last_broadcast_type = None;
+                    self.state.on_broadcast_confirmed();
 
                     database
                         .clear_written_events(self.application.as_mut())
